@@ -30,6 +30,9 @@ Definition list_cmp {A} (f : A -> A -> bool) (a b : list A) : bool :=
   Nat.eqb (length a) (length b) && forallb (fun ab => f (fst ab) (snd ab)) (combine a b).
 Definition ser_cmp (m : cmpmode) (a b : ser) : bool :=
   list_cmp (fun x y => Qceqb (fst x) (fst y) && v_cmp m (snd x) (snd y)) a b.
+(* labels that the implementation computes (x - l, x - r for rolling_mean) rather than copies *)
+Definition rows_cmp (m : cmpmode) (a b : ser) : bool :=
+  list_cmp (fun x y => q_cmp m (fst x) (fst y) && v_cmp m (snd x) (snd y)) a b.
 Definition err_eqb (a b : err) : bool :=
   match a, b with
   | EClosedMismatch, EClosedMismatch | EValue, EValue | EOther, EOther => true
@@ -43,6 +46,7 @@ Definition obs_cmp (m : cmpmode) (a b : obs) : bool :=
   | OErr x, OErr y => err_eqb x y
   | OFrame c i r, OFrame c' i' r' => side_eqb c c' && v_cmp m i i' && ser_cmp m r r'
   | OSer r, OSer r' => ser_cmp m r r'
+  | ORows r, ORows r' => rows_cmp m r r'
   | OVals l, OVals l' => list_cmp (v_cmp m) l l'
   | OVal v, OVal v' => v_cmp m v v'
   | OBool x, OBool y => Bool.eqb x y
